@@ -1,5 +1,5 @@
 (* C11 — Agent callbacks: each party told of its fills, after holdings have been updated for the whole round. *)
-Require Import Pams.Prelude Pams.Match Pams.Market Pams.Sim Pams.SimLift Pams.SimInv Pams.SimProps Pams.SimCallbacks.
+Require Import Pams.Prelude Pams.Match Pams.Market Pams.Sim Pams.SimLift Pams.SimInv Pams.SimProps Pams.SimCallbacks Pams.SimHoldCb.
 Open Scope Z_scope.
 
 (* what the notification of one fill emits: the buyer's callback, then the seller's (twice to the same agent for a
@@ -48,6 +48,17 @@ Theorem C11_only_parties_are_notified : forall c tape batches funds,
   ok s = true -> forall a k r, In (a, k, r) (cbs (events_of s)) -> party a r /\ In r (truths (events_of s)).
 Proof. exact only_parties_are_notified. Qed.
 Print Assumptions C11_only_parties_are_notified.
+
+
+(* WHAT AN AGENT SEES WHEN CALLED BACK: in any run, for every callback, the holdings handed to the agent are its endowment
+   folded, in order, with every fill born before that callback - hence with all fills of the round being notified *)
+Theorem C11_callbacks_carry_holdings_updated_for_all_earlier_fills : forall c tape batches funds,
+  let s := run c tape batches funds in
+  let a0 := s_agents (init_sim c tape batches funds) in
+  forall before a k r hold sw run after, events_of s = before ++ EvCallback a k r hold sw run :: after ->
+    exists ag, find_agent a (fold_left apply_fill_holdings (fills before) a0) = Some ag /\ hold = holdings_ov ag.
+Proof. exact callbacks_carry_updated_holdings. Qed.
+Print Assumptions C11_callbacks_carry_holdings_updated_for_all_earlier_fills.
 
 Example C11_run_nonvacuous :
   let c := mkCfg [mkMC 0 (1#1) (100#1) None 1] [mkAC 0 false (1000#1) [(0, 10)]; mkAC 1 false (1000#1) [(0, 10)]]
